@@ -12,7 +12,7 @@ env   : dict key -> int ; list sizes under "#<list>" ; elements under "<list>[i]
 Expressions (lists):
   ["f", key]  ["lit", v]  ["ulit", v, w]  ["slit", v, w]  ["elit", v, enum_name, member_name]
   ["bin", op, l, r]  ["not", e]  ["in", e, [item...]] item = expr | ["rng", lo, hi]
-  ["inl", e, listkey]  ["ps", key, hi, lo]
+  ["inl", e, listkey]  ["ps", key, hi, lo]  ["pse", element_expr, hi, lo] (slice of a list element)
   ["el", listkey, idx_expr, attr|None]  ["iv", name]  ["it", name, attr|None]
   ["sz", listkey]  ["sum", listkey]  ["prod", listkey]  ["dyn", name]
 Statements:
@@ -117,7 +117,7 @@ def width(e, c):
         return width(e[1], c)
     if k in ("in", "inl", "dyn"):
         return 1
-    if k == "ps":
+    if k in ("ps", "pse"):
         return e[2] - e[3] + 1
     if k in ("el", "it"):
         return c.types[elkey(e, c)[1]]["w"]
@@ -152,7 +152,7 @@ def signed(e, c):
         return signed(e[2], c) and signed(e[3], c)
     if k == "not":
         return signed(e[1], c)
-    if k in ("in", "inl", "ps", "dyn", "sz"):
+    if k in ("in", "inl", "ps", "pse", "dyn", "sz"):
         return False
     if k in ("el", "it"):
         return c.types[elkey(e, c)[1]]["signed"]
@@ -187,6 +187,10 @@ def ev(e, c, ctx=-1):
     if k == "ps":
         t = c.types[e[1]]
         v = c.env[e[1]] & mask(t["w"])
+        n = e[2] - e[3] + 1
+        return ((v >> e[3]) & mask(n), n)
+    if k == "pse":
+        v, _w = ev(e[1], c)
         n = e[2] - e[3] + 1
         return ((v >> e[3]) & mask(n), n)
     if k in ("el", "it"):
@@ -452,7 +456,7 @@ def fields_of_expr(e, acc=None):
     elif k == "bin":
         fields_of_expr(e[2], acc)
         fields_of_expr(e[3], acc)
-    elif k == "not":
+    elif k in ("not", "pse"):
         fields_of_expr(e[1], acc)
     elif k == "in":
         fields_of_expr(e[1], acc)
@@ -525,6 +529,8 @@ def prefix_expr(e, p):
         return ["f", p + e[1]]
     if k == "ps":
         return ["ps", p + e[1]] + e[2:]
+    if k == "pse":
+        return ["pse", prefix_expr(e[1], p)] + e[2:]
     if k == "bin":
         return ["bin", e[1], prefix_expr(e[2], p), prefix_expr(e[3], p)]
     if k == "not":
